@@ -331,6 +331,8 @@ def evaluate(t, env):
         return r
     if op == "toreal":
         return Fraction(evaluate(t[1], env))
+    if op == "app":
+        return env[(t[1], tuple(evaluate(a, env) for a in t[4:]))]
     raise ValueError("evaluate: unknown op %r" % (op,))
 
 
@@ -348,13 +350,22 @@ def domain(sort, int_range=(-2, 2), usort_card=2):
 
 def assignments(symbols, int_ranges=None, usort_card=2):
     """all assignments over {name: sort}; int_ranges: name -> (lo, hi)"""
-    names = list(symbols)
+    names = []
     doms = []
-    for n in names:
+    for n in symbols:
         s = symbols[n]
-        if s == INT and int_ranges and n in int_ranges:
+        if is_fun(s):
+            # an uninterpreted function is a table: one entry per argument tuple
+            adoms = [domain(a, usort_card=usort_card) for a in s[1]]
+            rdom = domain(s[2], usort_card=usort_card)
+            for tup in itertools.product(*adoms):
+                names.append((n, tup))
+                doms.append(rdom)
+        elif s == INT and int_ranges and n in int_ranges:
+            names.append(n)
             doms.append(list(range(int_ranges[n][0], int_ranges[n][1] + 1)))
         else:
+            names.append(n)
             doms.append(domain(s, usort_card=usort_card))
     for vals in itertools.product(*doms):
         yield dict(zip(names, vals))
@@ -402,6 +413,10 @@ class GenCtx(object):
     def bv_widths(self):
         return sorted({s[1] for s in self.symbols.values() if is_bv(s)})
 
+    def funs_of(self, ret):
+        k = sort_key(ret)
+        return [(n, s) for n, s in self.symbols.items() if is_fun(s) and sort_key(s[2]) == k]
+
     def usort_list(self):
         seen = []
         for s in self.symbols.values():
@@ -429,6 +444,10 @@ def gen_term(tape, sort, depth, ctx):
     if depth <= 0 or tape.chance(1, 5, "term.leaf?"):
         return gen_leaf(tape, sort, ctx)
     d = depth - 1
+    fs = ctx.funs_of(sort)
+    if fs and tape.chance(1, 5, "term.uf?"):
+        n, s = tape.choice(fs, "term.uf")
+        return ["app", n, s[1], s[2]] + [gen_term(tape, a, d, ctx) for a in s[1]]
     if sort == BOOL:
         kinds = [(3, "conn"), (1, "ite"), (1, "booleq")]
         if ctx.bv and ctx.bv_widths():
